@@ -63,11 +63,50 @@ let world_of args =
 
 let render op args =
   match op with
-  | "render" -> Some (show_obs (api_render_string (world_of args) (arg args 0) (parse_ctx (argd args 1))))
+  | "render" | "text" | "frags" | "recursion" -> Some (show_obs (api_render_string (world_of args) (arg args 0) (parse_ctx (argd args 1))))
   | "renderfile" -> Some (show_obs (api_render_file (world_of args) (arg args 0) (parse_ctx (argd args 1))))
+  | "history" ->
+    (* one compiled template executed with several contexts: in the model execution is a
+       pure function of the compiled template, so each execution is a fresh render *)
+    let w = world_of args in
+    (match api_compile_only w (arg args 0) with
+     | OOk _ ->
+       let ctxs = String.split_on_char '~' (argd args 1) in
+       Some (String.concat ";" (List.map (fun c -> show_obs (api_render_string w (arg args 0) (parse_ctx c))) ctxs))
+     | o -> Some (show_obs o))
+  | _ -> None
+
+(* ---- filters applied to a value (C18, C19) ---- *)
+let rec descr_of_val (v : val0) : string option =
+  match v with
+  | VNil -> Some "n"
+  | VBool true -> Some "t"
+  | VBool false -> Some "f"
+  | VInt z -> Some ("i" ^ string_of_str (itoa z))
+  | VFloat f -> Some ("d" ^ (match format6 f with [] -> "" | s -> hex_of_str s))
+  | VStr s -> Some ("s" ^ (match s with [] -> "" | _ -> hex_of_str s))
+  | VList l ->
+    let parts = List.map descr_of_val l in
+    if List.exists (fun x -> x = None) parts then None
+    else Some ("L(" ^ String.concat "," (List.map (function Some x -> x | None -> "") parts) ^ ")")
+  | _ -> None
+
+let filter_op op args =
+  match op with
+  | "filter" ->
+    let pos = ref 0 in
+    let v = parse_val (List.nth args 1) pos in
+    let pos2 = ref 0 in
+    let p = parse_val (List.nth args 2) pos2 in
+    (match apply_filter (arg args 0) { vv = v; vsafe = false } { vv = p; vsafe = false } with
+     | Ok r -> (match descr_of_val r.vv with Some d -> Some ("v:" ^ d) | None -> Some "unmodelled")
+     | Err _ -> Some "err"
+     | Unmod -> Some "unmodelled"
+     | Fuel -> Some "fuel"
+     | Panic _ -> Some "panic")
   | _ -> None
 
 let first_some fs op args =
   List.fold_left (fun acc f -> match acc with Some _ -> acc | None -> f op args) None fs
 
-let run op args = first_some [c17; lexer; render] op args
+let run op args = first_some [c17; lexer; render; filter_op] op args
